@@ -77,6 +77,16 @@ def tasks(tier, seed):
             for pat in ("0", "to"):
                 ts.append({"kind": "responsive", "iv": iv, "to": to, "pat": pat, "payload": "k", "traffic": traffic, "bound": 2, "prior": "errored-run",
                            "name": "after-errored-run/responsive/%s/%s/%s/%s" % (iv, to, pat, traffic)})
+    # ... and the connection re-established inside ONE run_forever(reconnect=1) after the first was lost
+    for iv, to in ((2, 1), (3, 1), (2.5, 2), (2, None)):
+        for traffic in ("none", "chatty"):
+            for payload in ("k", "hb-token"):
+                if to is not None:
+                    ts.append({"kind": "silent", "iv": iv, "to": to, "j": 1, "payload": payload, "traffic": traffic, "bound": 2, "prior": "reconnected",
+                               "name": "reconnected/silent/%s/%s/j1/%s/%s" % (iv, to, traffic, payload)})
+                for pat in (("0", "to") if to is not None else ("none",)):
+                    ts.append({"kind": "responsive", "iv": iv, "to": to, "pat": pat, "payload": payload, "traffic": traffic, "bound": 2, "prior": "reconnected",
+                               "name": "reconnected/responsive/%s/%s/%s/%s/%s" % (iv, to, pat, traffic, payload)})
     # a process-wide default socket timeout (setdefaulttimeout) much larger / smaller than the ping timeout must not change the keepalive
     for iv, to in ((2, 1), (2.5, 2)):
         for dt in (30, 0.5):
@@ -192,6 +202,13 @@ class Harness:
             spec["attempts"] = [lambda: tnet.ServerPeer(script=[(lost_at, "eof", b"")], on_ping=("all", 0.0))]
             spec["second_run"] = True
             spec["second_attempts"] = [mk]
+        if d.get("prior") == "reconnected":
+            # ONE run_forever(reconnect=1): the first connection is lost, the measured connection is the one the app re-establishes
+            lost_at = iv + 0.5
+            # (a third connection, made after a ping timeout on the second, is closed by the server at once so that the run ends)
+            spec["attempts"] = [lambda: tnet.ServerPeer(script=[(lost_at, "eof", b"")], on_ping=("all", 0.0)), mk,
+                                lambda: tnet.ServerPeer(script=[(0.25, "data", R.encode(R.CLOSE, b"\x03\xe8"))], on_ping=("all", 0.0))]
+            run_kwargs["reconnect"] = 1
         run = appsim.AppRun(ch, spec)
         res = run.execute()
         self.steps += run.sched.steps
@@ -210,7 +227,15 @@ class Harness:
         out = (res["ret"] or [None])[-1] if not res["abort"] else None
         trace = run.callback_trace()
         t0 = 0.0
-        if d.get("prior"):
+        if d.get("prior") == "reconnected":
+            opens = [i for i, e in enumerate(run.trace) if e[1] == "on_open"]
+            if len(opens) < 2:
+                if res["abort"]:
+                    raise V("no-termination", "the run did not end: %s" % res["abort"], ratio=_ratio(iv, to))
+                raise V("no-reconnect", "the lost connection was not re-established (reconnect=1): %r" % ([e[1] for e in run.trace][:8],))
+            trace = [e for e in run.trace[opens[1]:] if not e[1].startswith("--")]
+            t0 = run.trace[opens[1]][0]
+        elif d.get("prior"):
             # only the last run is measured; its clock starts at its on_open
             marks = [i for i, e in enumerate(run.trace) if e[1] == "--second-run--"]
             if not marks or len(res["ret"] or []) != 2:
@@ -233,6 +258,11 @@ class Harness:
         if out is None or out[0] != "ret":
             raise V("run-forever-raised", "valid settings interval=%r timeout=%r: run_forever raised %r" % (iv, to, out))
         peer = run.net.peers[-1] if run.net.peers else None
+        if d.get("prior") == "reconnected":
+            peer = run.net.peers[1]
+            third = [i for i, e in enumerate(trace) if e[1] == "on_open"][1:]
+            if third:
+                trace = trace[:third[0]]
         pings = [(t - t0, f) for t, f in (peer.client_frames if peer else []) if f.opcode == R.PING]
         errs = [(e[0] - t0,) + tuple(e[1:]) for e in trace if e[1] == "on_error"]
         closes = [(e[0] - t0,) + tuple(e[1:]) for e in trace if e[1] == "on_close"]
@@ -265,6 +295,16 @@ class Harness:
             if len(times) <= j:
                 raise V("no-unanswered-ping", "peer saw only %d pings" % len(times))
             T = times[j]
+            if not timeout_errs and d.get("prior") == "reconnected" and not errs and peer.client_closed_at is not None:
+                # On a RE-established connection the library hands no error to on_error (the `reconnecting` flag of setSock covers the whole
+                # life of that connection, as upstream); the detection is then observed as the client giving the connection up: it drops the
+                # transport when the reconnect delay (1) that follows the detection is over. Both readings of that instant are bounded.
+                drop = peer.client_closed_at - t0
+                if drop - 1 > T + 2 * to + 1e-9:
+                    raise V("silent-peer-detected-late", "first unanswered ping at T=%.2f, timeout %r: the connection was given up at t=%.2f (reconnect delay 1)" % (T, to, drop), ratio=_ratio(iv, to))
+                if drop < T + to - 1e-9:
+                    raise V("timeout-reported-early", "first unanswered ping at T=%.2f, timeout %r: connection already given up at t=%.2f" % (T, to, drop), ratio=_ratio(iv, to))
+                return
             if not timeout_errs:
                 raise V("silent-peer-not-detected", "peer silent from the ping at T=%.2f on but no ping/pong timeout was reported (errors: %r)" % (T, errs[:2]), ratio=_ratio(iv, to))
             t_det = timeout_errs[0][0]
@@ -277,7 +317,7 @@ class Harness:
             if errs:
                 raise V("false-timeout", "peer answers every ping within the timeout (pattern %s) but an error was reported at t=%.2f: %r" % (
                     d.get("pat"), errs[0][0], errs[0][2]), pat=d.get("pat"), ratio=_ratio(iv, to))
-            if out[1] is not False:
+            if out[1] is not False and d.get("prior") != "reconnected":
                 raise V("return-value", "clean run returned %r" % (out[1],))
             n_expected = int((end_at - 2 * iv) // iv) + 1 - (1 if d.get("send_fault") else 0)
             if len(times) < n_expected:
